@@ -35,4 +35,9 @@ CLAIMED = {
   text="All ordered pairs of the enumerated grammar product are compared on the real code against the PEP 440 key order; the reference is re-validated against the installed 'packaging' on the same universe (thorough tier).",
   note="Trusted base: engine/ref/pep440.go and packaging 26.3. Local-label disagreements are a listed known finding (test-pinned) and are attributed only when the reference decided by the local label and Compare returned 0.",
   ref="DESIGN.md 4 (C09), Appendix A.2"),
+ "C12": dict(
+  technique="bounded-exhaustive enumeration of conventionally shaped Maven versions (shape grammar x every known qualifier in three letter cases, aliases, unknown words, numbers) x all ordered pairs on the real Compare against a Go port of ComparableVersion, the port replayed against Maven's own jar",
+  text="All ordered pairs of the enumerated conventional-shape universe are compared on the real code against the ComparableVersion port; the port is re-validated against maven-artifact 3.8.7 on the same universe (thorough tier; 1.1M pairs, 0 disagreements when built).",
+  note="Trusted base: engine/ref/maven.go and /usr/share/maven/lib/maven-artifact-3.x.jar. Exotic chains and bare single-letter aliases are outside the domain as the property states.",
+  ref="DESIGN.md 4 (C12), Appendix A.5"),
 }
